@@ -115,7 +115,7 @@ func cmdCheck(args []string) int {
 	}
 	tmp, _ := os.MkdirTemp("", "govc")
 	defer os.RemoveAll(tmp)
-	cfg := eng.SolverCfg{Dir: tmp, Quick: 4 * time.Second, Full: 90 * time.Second}
+	cfg := eng.SolverCfg{Dir: tmp, Quick: 4 * time.Second, Full: 150 * time.Second}
 	if *tier == "thorough" {
 		cfg = eng.SolverCfg{Dir: tmp, Quick: 6 * time.Second, Full: 120 * time.Second, TwoAgree: true}
 	}
